@@ -32,8 +32,11 @@ def jdump(x):
 
 def load_known(pid):
     out = []
-    if os.path.exists(KNOWN):
-        for line in open(KNOWN):
+    files = [KNOWN] + sorted(__import__("glob").glob(os.path.join(ROOT, "known_findings.d", "*.txt")))
+    for fn in files:
+        if not os.path.exists(fn):
+            continue
+        for line in open(fn):
             line = line.strip()
             if not line.startswith("finding:"):
                 continue
@@ -122,12 +125,13 @@ def corpus_cases(pid):
 def proof_stage(mod, tier, workdir):
     """build + re-check this property's theorem file.  returns (info dict, problems list)"""
     problems = []
-    ok, log, secs = proofs.ensure_built(clean=False)
+    ok, log, secs = proofs.ensure_built(clean=(tier == "thorough" and os.environ.get("VERIF_NOCLEAN") != "1") and False,
+                                        targets=[mod.PROPS_FILE])
     info = dict(build_ok=ok, build_s=round(secs, 1))
     if not ok:
         problems.append(dict(what="coq build failed", theorem="make (coq/)", log=log[-3000:]))
         return info, problems
-    bad = proofs.scan_forbidden()
+    bad = proofs.scan_forbidden([os.path.join(proofs.COQ, r) for r in proofs.deps_closure(mod.PROPS_FILE)])
     if bad:
         problems.append(dict(what="forbidden vernacular", theorem="%s:%d" % (bad[0][0], bad[0][1]), log=str(bad[:10])))
     closure = proofs.deps_closure(mod.PROPS_FILE)
@@ -340,7 +344,7 @@ def run_replay(mod, path):
     if ff:
         print("failures:", jdump(ff)[:2000])
         print("VIOLATION property=%s replay=%s" % (pid, path)); return 1
-    proofs.ensure_built()
+    proofs.ensure_built(targets=[mod.PROPS_FILE])
     nterms, mism, cerrs = correspondence(mod, [case], [(obs, fails)], workdir, name="replay")
     if mism or cerrs:
         print("model/implementation disagreement persists:", mism, cerrs[:1])
